@@ -348,6 +348,15 @@ class Ctx:
             self._memo[key] = s
         return s
 
+    def register_sqrt(self, value, root):
+        """harness hint: sqrt(value) = root for SymK reals with root^2 == value identically (checked) and root >= 0 assumed;
+        avoids an auxiliary variable when the state is parametrised so that the radicand is a perfect square"""
+        v, r = value._re("sqrt hint"), root._re("sqrt hint")
+        if not (r * r - v).is_zero():
+            raise ValueError("register_sqrt: root^2 != value")
+        self.assume(B.cmp("<=", -r.sign_poly()), "registered square root >= 0")
+        self._memo[("sqrt", v.key())] = r
+
     def trig(self, r):
         """(cos r, sin r) contract stub for a real Rat argument"""
         key = ("trig", r.key())
